@@ -86,6 +86,13 @@ extern char g_buf[BUF_N], g_buf2[BUF_N];
 /* operator new / new[]: never returns null (failure would be std::bad_alloc, assumed absent) */
 static inline void *new_model(size_t bytes) { void *p = malloc(bytes); __CPROVER_assume(p != (void *)0); return p; }
 
+/* CBMC's built-in memcpy (array_copy / array_replace) returns arbitrary bytes when the source pointer may denote string constants
+ * of different sizes (measured: memcpy(out, T[t].p, T[t].n) with T = {{"http",4},{"ws",2}} fails an exact-content assertion).
+ * That is an over-approximation (false alarms only); obligations that copy from such tables select the byte-wise model. */
+#ifdef MEMCPY_BYTEWISE
+static inline void *model_memcpy_bytes(void *d, const void *s, size_t n) { for (size_t i = 0; i < n; i++) ((char *)d)[i] = ((const char *)s)[i]; return d; }
+#define memcpy model_memcpy_bytes
+#endif
 /* memcpy of a small constant size, byte by byte */
 #define MC1_(d, s, k) ((char *)(d))[k] = ((const char *)(s))[k];
 #define MEMCPY_1(d, s) do { MC1_(d, s, 0) } while (0)
@@ -433,6 +440,22 @@ static inline from_chars_result_t std_from_chars__uint16_t(const char *first, co
   *value = (uint16_t)v; r.ec = 0; return r;
 }
 #define std_from_chars__unsigned_short std_from_chars__uint16_t
+/* std::to_chars for unsigned 16-bit, base 10 [charconv.to.chars]: decimal digits without leading zeros; ec = value_too_large (75)
+ * and ptr = last when the buffer is too small */
+typedef struct { char *ptr; int ec; } to_chars_result_t;
+static inline to_chars_result_t std_to_chars__uint16_t(char *first, char *last, uint16_t value) {
+  unsigned nd = value >= 10000 ? 5 : value >= 1000 ? 4 : value >= 100 ? 3 : value >= 10 ? 2 : 1;
+  to_chars_result_t r;
+  if ((size_t)(last - first) < nd) { r.ptr = last; r.ec = 75; return r; }
+  unsigned v = value;
+  if (nd >= 5) first[nd - 5] = (char)('0' + (v / 10000) % 10);
+  if (nd >= 4) first[nd - 4] = (char)('0' + (v / 1000) % 10);
+  if (nd >= 3) first[nd - 3] = (char)('0' + (v / 100) % 10);
+  if (nd >= 2) first[nd - 2] = (char)('0' + (v / 10) % 10);
+  first[nd - 1] = (char)('0' + v % 10);
+  r.ptr = first + nd; r.ec = 0; return r;
+}
+#define std_to_chars__unsigned_short std_to_chars__uint16_t
 
 /* ---------------------------------------------------------------- <algorithm> instances
  * DEFINE_<ALG>_<RANGE>(name, pred): a loop over the range calling the *extracted* predicate.
